@@ -198,28 +198,41 @@ def slice_inner(repo: Repo, R, prefix: str):
                 why="`s[2:2]` is accepted and exported as a zero/negative-width slice")
         # bot / top per sign of step: lowest index, highest + 1
         start, stop, step = trip
-        last_defs = [n for n, d in defs.items() if au.poly_eq(au.expand(d, {k: v for k, v in defs.items() if k != wname}, depth=1), ast.parse(f"{start} + ({wname} - 1) * {step}", mode="eval").body)]
+        # `last`, by value: start + (width - 1) * step — found among the locals or written in place
+        LAST = ast.parse(f"{start} + (len(range({start}, {stop}, {step})) - 1) * {step}", mode="eval").body
+
+        def is_last(e):
+            try:
+                return au.poly_eq(shared.prov(fi.node, e), LAST)
+            except Exception:
+                return False
+
+        def is_start(e):
+            return ast.unparse(shared.prov(fi.node, e, depth=0)) == start or ast.unparse(e) == start
+
+        def plus1(e, what):
+            # e == what + 1
+            return isinstance(e, ast.BinOp) and isinstance(e.op, ast.Add) and ((what(e.left) and ast.unparse(e.right) == "1") or (what(e.right) and ast.unparse(e.left) == "1"))
+
         bt_ok = False
         detail = "bot/top assignment per sign of step not recognised"
-        assigns = []
-        for st in ast.walk(slice_if):
-            if isinstance(st, ast.Assign) and isinstance(st.targets[0], ast.Tuple) and [ast.unparse(e) for e in st.targets[0].elts] == [ast.unparse(kw["bot"]), ast.unparse(kw["top"])] and isinstance(st.value, ast.Tuple):
-                assigns.append(st)
-        if len(assigns) == 2 and last_defs:
-            last = last_defs[0]
-            got = {}
-            for st in assigns:
-                conds = path_conditions(fi.node, st)
-                sg = c01._sign_of_branch([(t, pol) for t, pol in conds], atom_suffix=step)
-                got[sg] = [ast.unparse(e) for e in st.value.elts]
-            want_pos = [start, None]
-            pos = got.get(1)
-            neg = got.get(-1)
-            if pos and neg:
-                p_ok = pos[0] == start and au.poly_eq(ast.parse(pos[1], mode="eval").body, ast.parse(f"{last} + 1", mode="eval").body)
-                n_ok = neg[0] == last and au.poly_eq(ast.parse(neg[1], mode="eval").body, ast.parse(f"{start} + 1", mode="eval").body)
-                bt_ok = p_ok and n_ok
-                detail = f"step>0: (bot, top) = ({pos[0]}, {pos[1]}); step<0: (bot, top) = ({neg[0]}, {neg[1]}); with {last} = {start} + ({wname}-1)*{step}"
+        got = {}
+        for fld in ("bot", "top"):
+            for v, cds in shared.alternatives(fi.node, kw[fld], list(path_conditions(fi.node, ctor[0]))):
+                sg = c01._sign_of_branch([(shared.prov(fi.node, t), pol) for t, pol in cds], atom_suffix=step)
+                got.setdefault(sg, {})[fld] = v
+        if set(got) == {1, -1} and all(set(got[k]) == {"bot", "top"} for k in got):
+            p_ok = is_start(got[1]["bot"]) and plus1(got[1]["top"], is_last)
+            n_ok = is_last(got[-1]["bot"]) and plus1(got[-1]["top"], is_start)
+            bt_ok = p_ok and n_ok
+            detail = f"step>0: (bot, top) = ({ast.unparse(got[1]['bot'])}, {ast.unparse(got[1]['top'])}); step<0: (bot, top) = ({ast.unparse(got[-1]['bot'])}, {ast.unparse(got[-1]['top'])}); with last = {start} + ({wname}-1)*{step}"
+        elif set(got) == {None} and set(got[None]) == {"bot", "top"}:
+            # one formula for both directions: the lowest and (one past) the highest of the first and the last selected index
+            b_, t_ = got[None]["bot"], got[None]["top"]
+            def mm(e, fn):
+                return isinstance(e, ast.Call) and isinstance(e.func, ast.Name) and e.func.id == fn and len(e.args) == 2 and ((is_start(e.args[0]) and is_last(e.args[1])) or (is_start(e.args[1]) and is_last(e.args[0])))
+            bt_ok = mm(shared.prov(fi.node, b_, depth=1) if isinstance(b_, ast.Name) else b_, "min") and plus1(t_, lambda x: mm(x, "max"))
+            detail = f"(bot, top) = ({ast.unparse(b_)}, {ast.unparse(t_)}) for both directions; with last = {start} + ({wname}-1)*{step}"
         R.check(bt_ok, r_sl, key_of(fi, "bot-top"), fi.at(ctor[0]),
                 detail + (" — bot is the lowest selected index and top one past the highest, for both directions" if bt_ok else ""),
                 why="bot/top of strided or reversed slices are off, so nested resolution and export pick other bits")
